@@ -66,7 +66,8 @@ def _scaling_occurrences(t):
 
 
 def _run_own(chk, S: Session):
-    chk.trust("primitive signatures of adomain.py", "NumPy ordering of kron / repeat / tile / reshape")
+    chk.trust("primitive signatures of adomain.py", "NumPy ordering of kron / repeat / tile / reshape",
+              "cholesky_util.triu_via_qr is one function shared by the three siblings and is typed like qr_r (its body is decided by C08, R-C08-8)")
     s1 = chk.rule("R-C14-S1", "sibling agreement of the inferred (layout-erased) unit signatures of the three factorisations", floor=20)
     r2 = chk.rule("R-C14-R2", "dense composite axes are coefficient-major (n major, d minor) at every producer", floor=9)
     r3 = chk.rule("R-C14-3", "TS0 without Jacobian in all three factorisations; calibrated-scale prototypes", floor=6)
@@ -81,6 +82,7 @@ def _run_own(chk, S: Session):
             env = AD.AEnv()
             it.ndim_oracle = env.rank_of
             AD.install_vmap(it, env)
+            c08.install_triu_contract(it)  # the one helper all three siblings share, as an opaque triangularisation (its own body is C08's subject, R-C08-8)
             cond = c08.mk_cond(it, env, fam, "c", nin, nout, c08.Ein, c08.Lin, c08.Lout, c08.Eout)
             try:
                 if meth == "apply_flat":
